@@ -5,6 +5,7 @@ import (
 	"encoding/json"
 	"flag"
 	"fmt"
+	"os"
 	"sort"
 	"strconv"
 	"strings"
@@ -230,6 +231,7 @@ func gqlErrs(err error) []gqlerrors.FormattedError {
 func init() {
 	handlers["C09"] = func(fs *flag.FlagSet) handler {
 		traceOut := fs.String("trace-out", "", "NDJSON trace for Trace_C09")
+		inflight := fs.String("inflight", "", "prefix of files naming the document each worker is processing")
 		state := &c09State{shapes: map[c09Shape]*c09Agg{}}
 		var once sync.Once
 		return func(tag string, raw []byte, st *Stats, wk *worker) {
@@ -287,6 +289,10 @@ func init() {
 						return
 					}
 					pr := abs.Print(&v.Doc, abs.DefaultLayout)
+					if *inflight != "" {
+						// a fatal runtime error (stack overflow) cannot be recovered: leave a note for the driver
+						os.WriteFile(fmt.Sprintf("%s.%d", *inflight, wk.id), []byte(pr.Text), 0o644)
+					}
 					if len(v.Runs) == 0 {
 						jobs = append(jobs, job{text: pr.Text})
 					}
